@@ -423,12 +423,19 @@ func vC01ParkedProgram(rnd *vRand, maxSeg int64) []string {
 	for i := 0; i < 1+rnd.Intn(3); i++ {
 		app(1 + rnd.Intn(3))
 	}
-	prog = append(prog, fmt.Sprintf("sethw %d", next-1))
 	mode := "c"
 	if rnd.Intn(3) == 0 {
 		mode = "u"
 	}
 	start := int64(rnd.Intn(int(next)))
+	if mode == "c" && next >= 2 && rnd.Intn(3) == 0 {
+		// a committed reader created just above the HW (the newest message is not committed yet): it waits for the HW
+		// and must then find the message at HW+1 wherever the HW has got to in the meantime - several rolls further
+		prog = append(prog, fmt.Sprintf("sethw %d", next-2))
+		start = next - 1
+	} else {
+		prog = append(prog, fmt.Sprintf("sethw %d", next-1))
+	}
 	prog = append(prog, fmt.Sprintf("ropen r1 %d %s", start, mode), fmt.Sprintf("rnext r1 %d", next+2))
 	for round := 0; round < 1+rnd.Intn(3); round++ {
 		prog = append(prog, "rwait r1")
